@@ -76,6 +76,12 @@ def build_pools(drv, nocase, binary, size, rng, want0, n_pools):
     rest = [b for b in order if b != 0]
     rng.shuffle(rest)
     order = [0] + rest if 0 in groups else rest
+    # ... then the LAST slot of the table (the highest bucket index any candidate lands in): iteration and the
+    # emptiness bookkeeping end there
+    last = max(groups)
+    if last in order and last != 0:
+        order.remove(last)
+        order.insert(1 if order and order[0] == 0 else 0, last)
     for b in order:
         g = groups[b]
         if nocase:
